@@ -5,14 +5,14 @@ VARIABLE tid
 TInit == tid \in 1..Len(Tr)
 TSpec == TInit /\ [][UNCHANGED tid]_tid
 R == Tr[tid]
-Clause == IF ~P_Restrict(R) THEN "Restrict" ELSE IF ~P_NoLossInt(R) THEN "NoLossInt" ELSE IF ~P_NoLossBool(R) THEN "NoLossBool"
+Clause == IF ~P_NoPairLoss(R) THEN "NoPairLoss" ELSE IF ~P_Restrict(R) THEN "Restrict" ELSE IF ~P_NoLossInt(R) THEN "NoLossInt" ELSE IF ~P_NoLossBool(R) THEN "NoLossBool"
           ELSE IF ~P_NoCollapse(R) THEN "NoCollapse" ELSE IF ~P_StrictBytes(R) THEN "StrictBytes" ELSE IF ~P_NoTimeToDate(R) THEN "NoTimeToDate"
           ELSE IF ~P_NoExtra(R) THEN "NoExtra" ELSE IF ~P_Group(R) THEN "Group" ELSE "none"
 Flags == <<"none", "ne", "ndl", "both">>
 \* which flag sets break the clause (part of the scenario key)
 Single(i) == [R EXCEPT !.out = [j \in 1..4 |-> IF j = i \/ j = 1 THEN R.out[j] ELSE [R.out[j] EXCEPT !.ok = FALSE]]]
 BadFlags == LET bad == {i \in 2..4 : ~(P_Restrict(Single(i)) /\ P_NoLossInt(Single(i)) /\ P_NoLossBool(Single(i)) /\ P_NoCollapse(Single(i))
-                                       /\ P_StrictBytes(Single(i)) /\ P_NoTimeToDate(Single(i)) /\ P_NoExtra(Single(i)) /\ P_Group(Single(i)))} IN
+                                       /\ P_StrictBytes(Single(i)) /\ P_NoTimeToDate(Single(i)) /\ P_NoExtra(Single(i)) /\ P_NoPairLoss(Single(i)) /\ P_Group(Single(i)))} IN
             IF bad = {} THEN "?" ELSE Flags[CHOOSE i \in bad : \A j \in bad : i <= j]
 JudgeP == Clause = "none" \/ PrintT(<<"VIOL", R.id, Clause, BadFlags>>)
 JudgeM == \A i \in 1..4 :
